@@ -3,12 +3,15 @@
 // Contracts for package baseorbitdb, read by /verif/govc. Comments only.
 package baseorbitdb
 
+// wfo(o): the instance's components exist (set once by newOrbitDB, never nil afterwards)
+//@ spec func wfo(o Int) Bool = o != 0 && ptr(o, "baseorbitdb.orbitDB").logger != nil && ptr(o, "baseorbitdb.orbitDB").cache != nil && ptr(o, "baseorbitdb.orbitDB").stores != nil && ptr(o, "baseorbitdb.orbitDB").storeTypes != nil && ptr(o, "baseorbitdb.orbitDB").accessControllerTypes != nil && ptr(o, "baseorbitdb.orbitDB").messageMarshaler != nil && ptr(o, "baseorbitdb.orbitDB").tracer != nil && ptr(o, "baseorbitdb.orbitDB").ipfs != nil && ptr(o, "baseorbitdb.orbitDB").identity != nil && ptr(o, "baseorbitdb.orbitDB").pubsub != nil && ptr(o, "baseorbitdb.orbitDB").keystore != nil && ptr(o, "baseorbitdb.orbitDB").emitters.newHeads != nil
+
 // ---- C12 / C09: heads received over the direct channel ----
 // The store that receives the heads is the one registered under the message's address.
 //@ func (*orbitDB).handleEventExchangeHeads
 //@   props C12 C09
 //@   flag nilcalls
-//@   requires e != nil && o.logger != nil
+//@   requires e != nil && wfo(o)
 //@   requires store != nil && (e.Address in o.stores) && o.stores[e.Address] == store
 //@   loop 1 invariant len(untypedHeads) == len(e.Heads)
 //@   ensures len(old(e.Heads)) > 0 ==> syncCalls(store) == old(syncCalls(store)) + 1
@@ -20,7 +23,7 @@ package baseorbitdb
 //@ func (*orbitDB).monitorDirectChannel$1
 //@   props C12 C09
 //@   flag nilcalls
-//@   requires o != nil && o.messageMarshaler != nil && o.logger != nil && o.emitters.newHeads != nil && sub != nil
+//@   requires wfo(o) && sub != nil
 //@   requires forall a Str :: (a in o.stores) ==> o.stores[a] != nil
 //@   flag assume-typeassert
 //@   loop 1 noexit
@@ -33,7 +36,7 @@ package baseorbitdb
 //@ func (*orbitDB).haveLocalData
 //@   props C14
 //@   flag nilcalls
-//@   requires o.logger != nil && dbAddress != nil
+//@   requires wfo(o) && dbAddress != nil
 //@   ensures result ==> c != nil && dsHas(c)[mkey(dbAddress)]
 //@   ensures c != nil && !dsHas(c)[mkey(dbAddress)] ==> !result
 //@   modifies nothing
@@ -42,7 +45,7 @@ package baseorbitdb
 //@ func (*orbitDB).addManifestToCache
 //@   props C14
 //@   flag nilcalls
-//@   requires o.cache != nil && dbAddress != nil
+//@   requires wfo(o) && dbAddress != nil
 //@   ghost D := cacheFor(o.cache, directory, addrStr(dbAddress))
 //@   ensures result == nil ==> dsHas(D)[mkey(dbAddress)]
 //@   modifies dsMap(cacheFor(o.cache, directory, addrStr(dbAddress))), dsHas(cacheFor(o.cache, directory, addrStr(dbAddress)))
@@ -50,7 +53,7 @@ package baseorbitdb
 //@ func (*orbitDB).loadCache
 //@   props C14
 //@   flag nilcalls
-//@   requires o.cache != nil
+//@   requires wfo(o)
 //@   ensures result1 == nil ==> result != nil && result == cacheFor(o.cache, directory, addrStr(dbAddress))
 //@   modifies nothing
 
@@ -89,7 +92,7 @@ package baseorbitdb
 //@ func (*orbitDB).createStore
 //@   props C09 C03 C05 C14
 //@   flag nilcalls
-//@   requires o.logger != nil && o.cache != nil && o.stores != nil && options != nil && parsedDBAddress != nil
+//@   requires wfo(o) && options != nil && parsedDBAddress != nil
 //@   requires options.AccessController != nil ==> ref(options.AccessController) != 0
 //@   ghost A0 := options.AccessControllerAddress
 //@   ensures result1 == nil ==> result != nil && stAddrOf(result) == parsedDBAddress
@@ -116,7 +119,7 @@ package baseorbitdb
 //@ func (*orbitDB).Create
 //@   props C14
 //@   flag nilcalls
-//@   requires o.logger != nil && o.cache != nil && o.stores != nil
+//@   requires wfo(o)
 //@   requires options != nil && options.AccessController != nil ==> ref(options.AccessController) != 0
 //@   ghost ow := options != nil && options.Overwrite != nil && deref(options.Overwrite)
 //@   assert @ before call o.haveLocalData#1: c == cacheFor(o.cache, o.directory, addrStr(dbAddress))
@@ -132,7 +135,7 @@ package baseorbitdb
 //@ func (*orbitDB).Open
 //@   props C14 C03
 //@   flag nilcalls
-//@   requires o.logger != nil && o.cache != nil && o.stores != nil
+//@   requires wfo(o)
 //@   requires options != nil && options.AccessController != nil ==> ref(options.AccessController) != 0
 //@   ghost S0 := storesCreated(0)
 //@   ghost lo := options != nil && options.LocalOnly != nil && deref(options.LocalOnly)
